@@ -2,6 +2,7 @@ import PycsepVerif.GeneratedSrc
 import PycsepVerif.Model.Readers
 import PycsepVerif.Source.C15
 import PycsepVerif.Model.PersistText
+import PycsepVerif.Proofs.TimeStr
 /-!
 # Source tie of C19: the per-record body of `zmap_ascii` (csep/utils/readers.py) generated from the Python source equals the
 hand model's `Readers.zmapRec` (Model/Readers.lean)
@@ -471,4 +472,121 @@ theorem jma_record_eq_model (id : Int) (line : List (List Char)) (first : Bool)
             all_goals (try (cases pyFloat a2 <;> (try simp [jmaOutcome])))
             all_goals (try (cases pyFloat a3 <;> (try simp [jmaOutcome])))
           · simp [hv, jmaOutcome] ))
+end Src
+
+/-!
+## `_parse_datetime_to_zmap` (readers.py:791-825): the date / time strings of an NDK hypocenter line
+
+The generated definition calls the translated `strptime_to_utc_datetime` with the format `'%Y/%m/%d %H:%M:%S.%f'`; for a format
+outside the eight `%Y-%m-%d…` ones the prelude's `Py.strptimeUtc` is the C15 owner's character-level model of CPython's
+`_strptime` (`Time.strptimeStr`, any format and field widths). `":60.0" in time` / `time.replace(…)` are the reader text model's
+`hasInfix` / `replaceAll`. The reader model (`ReaderText.parseNdkTime`, `Readers.ndkRec`) works on TOKENS with another
+parser; what ties the two is `ndk_time_round_trip`: for the fields strptime produced, the time `ndk` computes from the returned
+dictionary is the time `ndkRec` computes from the tokens (civil-calendar round trip `ofFields ∘ fields`, the added minute as a
+carry of 60 s on the second-0 clock).
+-/
+namespace Src
+open Readers ReaderText
+
+def ndkFmt : List Char :=
+  ['%', 'Y', '/', '%', 'm', '/', '%', 'd', ' ', '%', 'H', ':', '%', 'M', ':', '%', 'S', '.', '%', 'f']
+
+/-- `_parse_datetime_to_zmap(date, time)`: the ":60.0" rewrite, CPython's strptime on `date + " " + time` as modelled at
+    character level by `Time.strptimeStr` (ValueError → RuntimeError = `other`), one minute added after a rewrite, and the six
+    calendar fields of the resulting instant -/
+theorem parse_datetime_to_zmap_eq_model (date time : List Char) :
+    Src.parse_datetime_to_zmap date time =
+      (let sixty := hasInfix ":60.0".toList time
+       let time' := if sixty then replaceAll ":60.0".toList ":0.0".toList time else time
+       match Time.strptimeStr ndkFmt ((date ++ [' ']) ++ time') with
+       | none => .error .other
+       | some f =>
+         let g := Time.fields (Time.ofFields f + (if sixty then 60000000 else 0))
+         .ok (g.year, g.month, g.day, g.hour, g.minute, g.second)) := by
+  have h1 : ":60.0".toList = ([':', '6', '0', '.', '0'] : List Char) := by decide
+  have h2 : ":0.0".toList = ([':', '0', '.', '0'] : List Char) := by decide
+  have hk : Py.knownFormats.find? (fun f => Py.fmtText f == ndkFmt) = none := by decide
+  have hd : decide (ndkFmt = (['%', 'Y', '-', '%', 'm', '-', '%', 'd', ' ', '%', 'H', ':', '%', 'M', ':', '%', 'S', '.', '%', 'f'] : List Char)) = false := by decide
+  unfold Src.parse_datetime_to_zmap
+  simp only [h1, h2]
+  have hcall : ∀ s : List Char, Src.strptime_to_utc_datetime s
+      (['%', 'Y', '/', '%', 'm', '/', '%', 'd', ' ', '%', 'H', ':', '%', 'M', ':', '%', 'S', '.', '%', 'f'] : List Char)
+      = match Time.strptimeStr ndkFmt s with
+        | some f => .ok { us := Time.ofFields f, tz := .utc }
+        | none => .error .valueError := by
+    intro s
+    have hd' := hd
+    unfold ndkFmt at hd' hk
+    unfold Src.strptime_to_utc_datetime
+    simp only [hd', Bool.false_eq_true, if_false, Py.strptimeUtc, hk]
+    unfold ndkFmt
+    cases Time.strptimeStr _ s <;> rfl
+  simp only [hcall]
+  by_cases hs : hasInfix ([':', '6', '0', '.', '0'] : List Char) time = true
+  · simp only [hs, if_true]
+    cases Time.strptimeStr ndkFmt _ <;> simp [Py.reraise, Py.Datetime.addTd, Py.Datetime.year, Py.Datetime.month,
+      Py.Datetime.day, Py.Datetime.hour, Py.Datetime.minute, Py.Datetime.second]
+  · simp only [hs, Bool.false_eq_true, if_false]
+    cases Time.strptimeStr ndkFmt _ <;> simp [Py.reraise, Py.Datetime.addTd, Py.Datetime.year, Py.Datetime.month,
+      Py.Datetime.day, Py.Datetime.hour, Py.Datetime.minute, Py.Datetime.second]
+
+theorem fields_micro (us : Int) : (Time.fields us).micro = us % 1000000 := by
+  unfold Time.fields Time.usPerDay
+  simp only
+  exact Int.emod_emod_of_dvd us (by norm_num)
+
+/-- **civil-calendar round trip of the NDK time**: what `ndk` computes from the dictionary returned by
+    `_parse_datetime_to_zmap` — `datetime(year, month, day, hour, minute, second)` (microseconds dropped), then
+    `datetime_to_utc_epoch` — is the time of the reader model `Readers.ndkRec` on the tokens of the same text: the fields `f`
+    strptime produced, seconds field 60 with fraction digit 0 for a rewritten record. `g` = the fields of the instant after the
+    added minute (theorem `parse_datetime_to_zmap_eq_model`: the generated definition returns `g.year … g.second`). -/
+theorem ndk_time_round_trip (f : Time.Fields) (hv : Time.validFields f = true) (sixty : Bool)
+    (hs : sixty = true → f.second = 0) (lat lon dep mw : Rat) :
+    Readers.ndkRec ⟨f.year, f.month, f.day, f.hour, f.minute, if sixty then 60 else f.second,
+        if sixty then 0 else f.micro / 100000, lat, lon, dep, mw⟩
+      = .ok ⟨Time.dtToMs (Time.ofFields { Time.fields (Time.ofFields f + (if sixty then 60000000 else 0)) with micro := 0 }),
+          lat, lon, dep, mw⟩ := by
+  have hvf := hv
+  unfold Time.validFields at hvf
+  simp only [Bool.and_eq_true, decide_eq_true_eq] at hvf
+  obtain ⟨⟨⟨⟨⟨⟨⟨⟨⟨⟨hy1, hy2⟩, hdate⟩, hh0⟩, hh1⟩, hm0⟩, hm1⟩, hs0⟩, hs1⟩, hu0⟩, hu1⟩ := hvf
+  set carry : Int := if sixty then 60 else 0 with hcarry
+  have hU : Time.ofFields f + (if sixty then 60000000 else 0)
+      = Time.ofFields { f with micro := 0 } + carry * 1000000 + f.micro := by
+    unfold Time.ofFields; cases sixty <;> simp [hcarry] <;> ring
+  have hmic : (Time.fields (Time.ofFields f + (if sixty then 60000000 else 0))).micro = f.micro := by
+    rw [fields_micro, hU]
+    unfold Time.ofFields Time.usPerDay
+    simp only
+    omega
+  have hg : Time.ofFields { Time.fields (Time.ofFields f + (if sixty then 60000000 else 0)) with micro := 0 }
+      = Time.ofFields { f with micro := 0 } + carry * 1000000 := by
+    have h1 := Time.ofFields_fields (Time.ofFields f + (if sixty then 60000000 else 0))
+    have h2 : Time.ofFields { Time.fields (Time.ofFields f + (if sixty then 60000000 else 0)) with micro := 0 }
+        = Time.ofFields (Time.fields (Time.ofFields f + (if sixty then 60000000 else 0)))
+          - (Time.fields (Time.ofFields f + (if sixty then 60000000 else 0))).micro := by
+      unfold Time.ofFields; ring
+    rw [h2, h1, hmic, hU]; ring
+  rw [hg]
+  have hcv : ∀ ss : Int, 0 ≤ ss → ss < 60 → (⟨f.year, f.month, f.day, f.hour, f.minute, ss⟩ : Clock).valid = true := by
+    intro ss h0 h1
+    rw [← valid_eq]
+    unfold Time.validFields
+    simp [hy1, hy2, hdate, hh0, hh1, hm0, hm1, h0, h1]
+  cases sixty
+  · -- no rewrite: the seconds field is below 60
+    have hne : (f.second == 60) = false := by
+      have : ¬ f.second = 60 := by omega
+      simpa using this
+    have hc := hcv f.second hs0 hs1
+    have := epoch_carry ⟨f.year, f.month, f.day, f.hour, f.minute, f.second⟩ hc 0
+    simp only [ndkRec, Bool.false_eq_true, if_false, hne, Bool.false_and, hc, if_true, hcarry]
+    simp only [zero_mul, add_zero] at this ⊢
+    rw [this]
+  · -- rewritten record: seconds 60, fraction digit 0; the clock is read with second 0 and a minute is added
+    have hs2 := hs rfl
+    have hc := hcv 0 (by norm_num) (by norm_num)
+    have := epoch_carry ⟨f.year, f.month, f.day, f.hour, f.minute, 0⟩ hc 60
+    simp only [ndkRec, if_true, beq_self_eq_true, Bool.and_self, hc, hcarry]
+    rw [hs2, this]
 end Src
